@@ -26,14 +26,24 @@ ASSUMPTIONS = [
 RULE_C01 = ("layouts = Type 4A/4B x FSCI x mapping version 1.0/2.0/3.0 (04h and 06h control TLV) x MLe 15..FFFFh x MLc 1..FFFFh x "
             "max file size 5..8K (up to 64K+ with the 06h TLV; the capacity of a file above 8000h is judged against the 15 bit offset limit) x device frame limits; lengths 0,1,253..257, MLc and MLe "
             "boundaries, capacity-1, capacity, capacity+1, random; every length 0..capacity+1 for files up to 40 bytes; "
-            "a case is distinct by (layout, length) and non-trivial when the fresh-activation read back was compared")
+            "chunked writes with every residue of (length + NLEN field) mod MLc for MLc 3..13 and around 0 for MLc 52 / 255; "
+            "mapping minor versions 11h / 1Fh / 21h / 2Fh / 31h / 3Fh; CC with further TLVs behind the NDEF file control TLV "
+            "(CCLEN > 15 / 17); MLe 15 with previous messages above 256 octets, shrinking writes; oversize lengths capacity + 1, "
+            "+ 2, + 255, 65535, 65536; an earlier assignment or format(wipe) on the same object before the judged assignment; "
+            "files above 8000h on a card without offset data objects (only there a capacity above the 15 bit offset limit is "
+            "refused by itself: with offset data objects it is left to the round trip); "
+            "a case is distinct by (layout, length, history) and non-trivial when the fresh-activation read back was compared")
 RULE_C02 = ("(layout, old message, new message) x every cut k = 0..n after the k-th applied UPDATE BINARY; layouts put the "
             "message on both sides of the one-command / chunked boundary (MLc 1..255, NLEN 2 and 4 bytes); a second class "
             "announces MLc (and MLe) above the short APDU limits (MLc 256, 257, 300, 1000, 2048, FFFFh x MLe 255..FFFFh x "
             "mapping 1.0/2.0/3.0 with NLEN and ENLEN) with new messages around the short-APDU limit (NLEN field + message = "
             "254..257, 510, 511), around MLc (MLc-1..MLc+1) and between the two, old messages shorter, equal and longer, so "
-            "that 'fits MLc' and 'fits one short UPDATE BINARY' disagree; non-trivial when the fresh reader's view was "
-            "classified")
+            "that 'fits MLc' and 'fits one short UPDATE BINARY' disagree; a third class enumerates chunked writes whose "
+            "(length + NLEN field) mod MLc takes every residue for MLc 3..13 and the residues around 0 for MLc 52 / 255 (the "
+            "last UPDATE BINARY carries 1, 2, .. MLc octets), mapping 1.0/1.1/2.0/2.15/3.0/3.1; after every cut the memory is read "
+            "by nfcpy's fresh reader and by the independent reference reader (vf.ref.t4_files.ref_read), a mixture seen by "
+            "either is a violation, a fresh reader that raises is a violation; k = n is judged like every other cut; "
+            "non-trivial when the fresh reader's view was classified")
 RULE_C03 = ("(layout: mapping 1.0/2.0/3.0 with the 04h (NLEN 2) or 06h (ENLEN 4) control TLV, an unrelated EF, and a card "
             "behaviour: EF physically 16/2/1 bytes larger than the declared maximum file size and silently writable there, EF "
             "exactly the declared size, or larger EF with UPDATE BINARY range checked at the declared size; refusal SW 6700/"
@@ -41,7 +51,10 @@ RULE_C03 = ("(layout: mapping 1.0/2.0/3.0 with the 04h (NLEN 2) or 06h (ENLEN 4)
             "area+2 where area = min(declared size, 8000h) - length field is computed independently of the reader, at reported "
             "capacity-2..+2, 0, 1, random; format with wipe None/0/A5h/random); every UPDATE BINARY (offset, Lc, P1 bit 8) is "
             "checked against [0, declared size) and the memory diffed whatever the operation returned; a length above the "
-            "reported capacity must be refused before any command; distinct by (layout, operation); non-trivial when at "
+            "reported capacity must be refused before any UPDATE BINARY (lengths up to capacity + 255, 65535, 65536); mapping "
+            "minor versions, CC with further TLVs (one naming the unrelated EF), MLe 15, previous messages above 256 octets; "
+            "an earlier assignment / format(wipe) on the same object (write-write, format-write, write-format), all its UPDATE "
+            "BINARY commands judged too; distinct by (layout, operation, history); non-trivial when at "
             "least one UPDATE BINARY was inspected and memory diffed, or an oversize write was judged")
 RULE_C08 = ("activation variants (ATS: every subset of TA/TB/TC x 0..15 historical bytes, short / empty / inconsistent ATS; "
             "SENSB_RES 1..14 bytes incl. the 13-byte extended ATQB with random SFGI, RFU values, ATTRIB answers), CC mutations (CCLEN, version, MLe/MLc, TLV tag/length, "
@@ -56,28 +69,49 @@ RULE_C08 = ("activation variants (ATS: every subset of TA/TB/TC x 0..15 historic
             "boundary of the read exactly on offset 8000h with NLEN between the addressable (min(size, 8000h) - length "
             "field) and the declared capacity; the returned octets must be the bytes behind NLEN of the selected file, the "
             "capacity at most the addressable one, and an NDEF object is never assembled with a READ BINARY whose P1 has bit 8 "
-            "set; distinct by the whole descriptor; non-trivial when activation was attempted and every accessor was evaluated")
+            "set; every ATS variant cut at every length with TL unchanged or followed by surplus octets, SENSB_RES cut at every "
+            "length; a stateful adversary that from frame j on answers every I-block / R-block with a chained block carrying the "
+            "expected block number (INF 0..253 octets, endless or 2..260 blocks, S(WTX) interleaved): the command bound is what a "
+            "reader accepting a 65538 octet response would acknowledge; stop positions also on mutated files and unusual "
+            "activation answers; device buffers 32..290 octets; loop iterations inside nfc/tag/tt4.py bounded per case "
+            "(sys.monitoring); distinct by the whole descriptor; non-trivial when activation was attempted and every accessor "
+            "was evaluated")
 RULE_C16 = ("operation (ndef read, has_changed, one-command and chunked write, is_present, format(wipe), dump, send_apdu, "
             "transceive) x every frame position of its fault free run x {Timeout, Transmission, Protocol} x burst 1..4 x "
             "{command lost, response lost} x (Type 4A/4B, FSCI, FWI -> retry budget 0/1/3/5, WTX on UPDATE BINARY); at "
             "every cell an operation that returns normally returns the fault free result or its documented failure value "
-            "(None / False / has_changed True / shorter dump) and, with the fault free result, leaves the fault free memory")
+            "(None / False / has_changed True / shorter dump) and, with the fault free result, leaves the fault free memory; "
+            "further fault scripts: bursts of exactly budget and budget + 1; selective loss (from frame p on every I-block / "
+            "every R-block is lost, budget, budget + 1 or all of them: I lost, R delivered, I lost ...) with the errno judged "
+            "and the same I-block sent at most 1 + budget times (without S(WTX)); bursts within the budget every burst + 2 "
+            "frames through the whole operation (many transient errors, each on another block, long chained READ BINARY "
+            "answers with FSC 16..64 on a second file geometry MLe 255 / 600 octets) judged as within budget; sessions: the "
+            "faulted operation, then two operations (re-read, write, SELECT, presence check) on the same object over a healthy "
+            "link: as in the fault free session after a survived fault, after a failure only TagCommandError or a value "
+            "that is true for the card as it is. protect / authenticate send no command on a Type 4 Tag (not applicable)")
 REQUIRED_C01 = ["t4t_roundtrips", "t4t_ref_reads", "t4t_oversize_rejected", "t4t_len_capacity", "t4t_len_zero",
                 "t4t_c01_mlc>255_writes_beyond_short_apdu_within_mlc", "t4t_c01_mle>256_reads_beyond_short_apdu",
-                "t4t_c01_fsize>8000h_capacity_judged"]
+                "t4t_c01_fsize>8000h_capacity_judged", "t4t_c01_fsize>8000h_capacity_judged_card_without_odo",
+                "t4t_c01_residue_cases", "t4t_c01_chunked_last_chunk_within_nlen_field_size", "t4t_c01_second_assignment_same_object",
+                "t4t_c01_second_assignment_shrinks", "t4t_c01_write_after_format_same_object", "t4t_c01_oversize_far_rejected",
+                "t4t_c01_minor_version_roundtrips", "t4t_c01_cc_with_further_tlvs_roundtrips",
+                "t4t_c01_previous_message>256_shrinking_write", "t4t_c01_previous_message>256_mle15"]
 REQUIRED_C02 = ["t4t_cuts", "t4t_cut_outcome_old", "t4t_cut_outcome_new", "t4t_cut_outcome_empty",
                 "t4t_c02_mlc>255_cuts", "t4t_c02_mlc>255_within_mlc_midcuts", "t4t_c02_mlc>255_within_mlc_midcuts_nlen2",
                 "t4t_c02_mlc>255_within_mlc_midcuts_nlen4", "t4t_c02_mlc>255_within_mlc_midcuts_old_shorter",
                 "t4t_c02_mlc>255_within_mlc_midcuts_old_longer", "t4t_c02_mlc>255_first_length_beyond_short_apdu",
                 "t4t_c02_mlc>255_largest_length_within_mlc", "t4t_c02_mlc>255_single_short_apdu_writes",
-                "t4t_c02_mlc>255_above_mlc_writes"]
+                "t4t_c02_mlc>255_above_mlc_writes", "t4t_c02_ref_reads", "t4t_c02_cut_after_last_command_judged",
+                "t4t_c02_residue_cases"]
 REQUIRED_C03 = ["t4t_c03_ops", "t4t_c03_updates_inspected", "t4t_c03_bytes_diffed", "t4t_c03_format_wipe",
                 "t4t_c03_tlv04_writes_applied", "t4t_c03_tlv06_writes_applied",
                 "t4t_c03_tlv04_write_reaches_last_declared_byte", "t4t_c03_tlv06_write_reaches_last_declared_byte",
                 "t4t_c03_tlv04_above_area_refused", "t4t_c03_tlv06_above_area_refused",
                 "t4t_c03_writes_on_file_larger_than_declared", "t4t_c03_writes_on_range_checking_card",
                 "t4t_c03_write_up_to_offset_limit", "t4t_c03_beyond_offset_limit_refused", "t4t_c03_oversize_refused",
-                "t4t_c03_mlc>255_writes_beyond_short_apdu"]
+                "t4t_c03_mlc>255_writes_beyond_short_apdu", "t4t_c03_history_write_then_write",
+                "t4t_c03_history_format_then_write", "t4t_c03_history_write_then_format", "t4t_c03_minor_version_ops",
+                "t4t_c03_cc_with_further_tlvs_ops", "t4t_c03_mle15_ops", "t4t_c03_previous_message>256_ops"]
 REQUIRED_C08 = ["t4t_c08_cases", "t4t_c08_outcome_ndef", "t4t_c08_outcome_none", "t4t_c08_ats_variants",
                 "t4t_c08_sensb_variants", "t4t_c08_sensb_extended_atqb", "t4t_c08_stop_positions",
                 "t4t_c08_big_cases", "t4t_c08_big_nlen_within_2_of_limit_judged", "t4t_c08_big_largest_message_read_and_compared",
@@ -85,9 +119,22 @@ REQUIRED_C08 = ["t4t_c08_cases", "t4t_c08_outcome_ndef", "t4t_c08_outcome_none",
                 "t4t_c08_big_read_ends_at_offset_7FFFh", "t4t_c08_big_short_reads_served",
                 "t4t_c08_big_chunk_boundary_at_8000h_nlen_beyond_limit_judged_sfi_card",
                 "t4t_c08_big_chunk_boundary_at_8000h_nlen_beyond_limit_judged_offset_card",
-                "t4t_c08_big_chunk_boundary_at_8000h_nlen_beyond_limit_judged_6B00_card"]
+                "t4t_c08_big_chunk_boundary_at_8000h_nlen_beyond_limit_judged_6B00_card",
+                "t4t_c08_adaptive_cases", "t4t_c08_adaptive_endless", "t4t_c08_adaptive_finite_chain_ended",
+                "t4t_c08_adaptive_wtx_interleaved", "t4t_c08_ats_truncated", "t4t_c08_ats_truncated_before_announced_TB1",
+                "t4t_c08_ats_truncated_before_T0", "t4t_c08_ats_surplus", "t4t_c08_sensb_truncated",
+                "t4t_c08_stop_x_files", "t4t_c08_stop_x_activation", "t4t_c08_device_buffers_varied",
+                "t4t_c08_tt4_loop_iterations_monitored"]
 REQUIRED_C16 = ["t4t_c16_cells", "t4t_c16_within_budget_same", "t4t_c16_beyond_budget_reported", "t4t_c16_dup_checked",
-                "t4t_c16_normal_returns_judged"]
+                "t4t_c16_normal_returns_judged", "t4t_c16_wtx_cells", "t4t_c16_kind_TO", "t4t_c16_kind_TE", "t4t_c16_kind_PE",
+                "t4t_c16_op_ndef", "t4t_c16_op_changed", "t4t_c16_op_write1", "t4t_c16_op_writeN", "t4t_c16_op_present",
+                "t4t_c16_op_format", "t4t_c16_op_dump", "t4t_c16_op_apdu", "t4t_c16_op_apdu_rd", "t4t_c16_op_apdu_rdL",
+                "t4t_c16_op_xcv", "t4t_c16_resend_bound_judged", "t4t_c16_pattern_sel_I_cmd_lost", "t4t_c16_pattern_sel_R_cmd_lost",
+                "t4t_c16_pattern_sel_I_rsp_lost", "t4t_c16_pattern_sel_beyond_budget_errno_judged",
+                "t4t_c16_pattern_multi_more_faults_than_budget_each_burst_within", "t4t_c16_pattern_multi_survived",
+                "t4t_c16_session_cells", "t4t_c16_session_after_survived_same", "t4t_c16_session_after_failure_judged",
+                "t4t_c16_session_survived_same_memory",
+                "t4t_c16_session_abandoned_chain_then_write_cells"]
 
 
 # ---- helpers ----------------------------------------------------------------------------------------------------
@@ -115,6 +162,26 @@ def budget(fwi):
 def act(card, lay, **kw):
     from vf.sim import tagdevice
     return tagdevice.activate(card, max_send=lay.get("max_send", 290), max_recv=lay.get("max_recv", 290), **kw)
+
+
+def mk_card(lay, msg=b"", guard=0):
+    """vf.sim.t4t.make_card + layout options this module adds on top of the shared card model:
+    cc_extra  bytes of further TLVs behind the NDEF file control TLV (CCLEN covers them)
+    odo       False: the card does not implement READ / UPDATE BINARY with offset data objects (B1h / D7h)"""
+    from vf.sim import t4t
+    card = t4t.make_card(lay, msg, guard=guard)
+    if lay.get("cc_extra"):
+        card.files[ref.CC_FID] = bytearray(ref.build_cc(lay.get("ver", 0x20), lay["mle"], lay["mlc"], lay.get("fid", 0xE104),
+                                                        lay["fsize"], lay.get("rd", 0), lay.get("wr", 0), tlv=lay.get("tlv", 4),
+                                                        extra=bytes(lay["cc_extra"])))
+    if "odo" in lay:
+        card.odo = bool(lay["odo"])
+    return card
+
+
+def card_reaches_beyond_offset_limit(card):
+    """can a reader address file offsets above 7FFFh on this card at all (offset data objects, mapping version 3.0)"""
+    return bool(getattr(card, "odo", False))
 
 
 def tagsig(e):
@@ -186,11 +253,10 @@ def rcls(lay, L):
 # C01
 # =================================================================================================================
 def c01_eval(R, case, count=True):
-    from vf.sim import t4t
     lay, L, mseed = case["lay"], case["L"], case.get("mseed", 0)
     ns = ns_of(lay)
     prev = content(mseed + 1, case.get("prev_len", 0))
-    card = t4t.make_card(lay, prev)
+    card = mk_card(lay, prev)
 
     def bad(sig, what):
         R.violation("t4t/c01/" + sig, what, case)
@@ -217,16 +283,54 @@ def c01_eval(R, case, count=True):
     if cap > ref_cap:
         bad("capacity>layout", "capacity %d but the file holds %d message bytes" % (cap, ref_cap))
     elif cap > c03_area(lay):
-        # UPDATE / READ BINARY offsets end at 7FFFh: what lies behind cannot be written or read back
-        bad("capacity>addressable", "capacity %d but only %d message bytes lie below file offset 8000h (file size %d)"
-            % (cap, c03_area(lay), lay["fsize"]))
+        # UPDATE / READ BINARY (B0h / D6h) offsets end at 7FFFh: what lies behind cannot be written or read back, unless the
+        # card implements the offset data object forms (B1h / D7h); then a larger capacity is judged by the round trip of a
+        # message of that length, not here
+        if not card_reaches_beyond_offset_limit(card):
+            bad("capacity>addressable", "capacity %d but only %d message bytes lie below file offset 8000h (file size %d, the "
+                "card has no READ / UPDATE BINARY with offset data object)" % (cap, c03_area(lay), lay["fsize"]))
+        elif count:
+            R.count("t4t_c01_capacity_above_offset_limit_left_to_round_trip")
     if count and lay["fsize"] > 0x8000:
         R.count("t4t_c01_fsize>8000h_capacity_judged")
+        if not card_reaches_beyond_offset_limit(card):
+            R.count("t4t_c01_fsize>8000h_capacity_judged_card_without_odo")
     if nd.octets != prev:
         bad("first-read-mismatch/%s" % pc, "octets of the previous message differ (%d vs %d bytes)" % (len(nd.octets), len(prev)))
     if not nd.is_writeable:
         bad("not-writeable", "write access 00h but is_writeable is False")
         return False
+    # history on the same object before the judged assignment: an earlier assignment / format(wipe)
+    for pre in case.get("pre") or ():
+        if pre[0] == "write":
+            L0 = min(pre[1], cap)
+            try:
+                nd.octets = content(pre[2], L0)
+            except Exception as e:          # noqa
+                bad("write-raises/%s/%s" % (wcls(lay, L0), tagsig(e)), "first of two assignments: octets = <%d bytes> (capacity %d) "
+                    "raised %r" % (L0, cap, e))
+                return True
+            if count:
+                R.count("t4t_c01_second_assignment_same_object")
+                if L0 > L:
+                    R.count("t4t_c01_second_assignment_shrinks")
+        else:
+            try:
+                fr = tag.format(wipe=pre[1])
+                nd = tag.ndef
+            except Exception:               # noqa  (format itself is C03's / C16's subject, not part of this statement)
+                if count:
+                    R.count("t4t_c01_format_raised_not_judged")
+                return False
+            if nd is None:
+                bad("wellformed-not-recognized/after-format", "format(wipe=%r) returned %r, then tag.ndef is None on the same object "
+                    "(well-formed layout)" % (pre[1], fr))
+                return True
+            if nd.capacity > ref_cap:
+                bad("capacity>layout", "capacity %d after format but the file holds %d message bytes" % (nd.capacity, ref_cap))
+            cap = nd.capacity
+            if count:
+                R.count("t4t_c01_write_after_format_same_object")
     m = content(mseed, L)
     if L > cap:
         n0 = dev.n_commands
@@ -236,6 +340,10 @@ def c01_eval(R, case, count=True):
         except ValueError:
             if count:
                 R.count("t4t_oversize_rejected")
+                if L - cap > 1:
+                    R.count("t4t_c01_oversize_far_rejected")
+                R.seen("t4t_c01_oversize_excess", "+1" if L == cap + 1 else ("+2" if L == cap + 2 else ("+255" if L == cap + 255 else
+                                                   ("65535" if L == 65535 else ("65536" if L == 65536 else "other")))))
         except Exception as e:      # noqa
             bad("oversize-wrong-exception/%s" % tagsig(e), "oversize write raised %r, not ValueError" % (e,))
         if dev.n_commands != n0:
@@ -288,21 +396,125 @@ def c01_eval(R, case, count=True):
                 R.count("t4t_c01_mlc>255_writes_beyond_short_apdu_within_mlc")
         if lay["mle"] > 256 and L > 256:
             R.count("t4t_c01_mle>256_reads_beyond_short_apdu")
+        if lay["ver"] & 15:
+            R.count("t4t_c01_minor_version_roundtrips")
+            R.seen("t4t_c01_mapping_versions", "%02Xh" % lay["ver"])
+        if lay.get("cc_extra"):
+            R.count("t4t_c01_cc_with_further_tlvs_roundtrips")
+        if len(prev) > 256:
+            R.count("t4t_c01_previous_message>256")
+            if L < len(prev):
+                R.count("t4t_c01_previous_message>256_shrinking_write")
+            if lay["mle"] == 15:
+                R.count("t4t_c01_previous_message>256_mle15")
+        if L + ns > lay["mlc"]:
+            R.seen("t4t_c01_chunked_residue_class", "last-chunk<=nlen-field" if 1 <= (L + ns) % lay["mlc"] <= ns else
+                   ("last-chunk-full" if (L + ns) % lay["mlc"] == 0 else "other"))
+            if 1 <= (L + ns) % lay["mlc"] <= ns:
+                R.count("t4t_c01_chunked_last_chunk_within_nlen_field_size")
         R.max("t4t_c01_commands", dev.n_commands)
     return True
 
 
 def plan_c01(tier):
+    # (classes added later run behind the existing mode of a shard: "res" = residue class, "extra" = c01_extra_case)
     if tier == "quick":
-        return [{"mode": "small", "sizes": [5, 24]}, {"mode": "random", "n": 2500}, {"mode": "boundary", "n": 500}]
-    out = [{"mode": "small", "sizes": [5 + 9 * i, 14 + 9 * i], "timeout": 1500} for i in range(4)]
-    out += [{"mode": "random", "n": 30000, "timeout": 1500} for _ in range(6)]
-    out += [{"mode": "boundary", "n": 6000, "timeout": 1500} for _ in range(2)]
+        return [{"mode": "small", "sizes": [5, 24], "res": 3}, {"mode": "random", "n": 2500, "extra": 160, "extra0": 0},
+                {"mode": "boundary", "n": 500, "extra": 420, "extra0": 160}]
+    out = [{"mode": "small", "sizes": [5 + 9 * i, 14 + 9 * i], "res": 3 + i, "timeout": 1500} for i in range(4)]
+    out += [{"mode": "random", "n": 30000, "extra": 3000, "extra0": 3000 * i, "timeout": 1500} for i in range(6)]
+    out += [{"mode": "boundary", "n": 6000, "extra": 6000, "extra0": 18000 + 6000 * i, "timeout": 1500} for i in range(2)]
     return out
+
+
+C01_EXTRA_OPTS = ("minor", "cc_extra", "mle15_long_prev", "shrink", "oversize", "second", "format_then_write", "big_no_odo",
+                  "second", "oversize", "minor", "cc_extra")
+C01_MINOR = ((0x11, 4), (0x2F, 4), (0x31, 6), (0x31, 4), (0x21, 4), (0x3F, 6), (0x1F, 4))
+# further TLVs behind the NDEF file control TLV: proprietary file control TLV (05h), a second NDEF file control TLV (the first
+# one is the NDEF file of the tag), an extended one, an unknown TLV
+C01_CC_EXTRA = (bytes.fromhex("0506E10500200000"), bytes.fromhex("0406E10600400000"), bytes.fromhex("0608E107000000400000"),
+                bytes.fromhex("0506E10500200000") + bytes.fromhex("0506E1080010FF00"), bytes.fromhex("7F021234"),
+                bytes.fromhex("0406E10600400000") + bytes.fromhex("0506E10500200000") + bytes.fromhex("0506E1080010FF00"))
+
+
+def c01_extra_case(rng, j):
+    """j-th case of the classes added to the generator (the option cycles with j, the other dimensions are drawn):
+    mapping minor versions 11h / 2Fh / 31h ..., CC with further TLVs (CCLEN > 15 / 17), MLe 15 with previous messages above 256
+    octets, shrinking writes, oversize lengths capacity + 2 / + 255 / 65535 / 65536, a second assignment on the same object,
+    format(wipe) then write on the same object, files behind the 15 bit offset limit on a card without offset data objects"""
+    opt = C01_EXTRA_OPTS[j % len(C01_EXTRA_OPTS)]
+    lay = gen_layout(rng, small=True)
+    lay["fsci"] = rng.choice([8, 8, 7, 5])
+    lay["max_send"], lay["max_recv"] = rng.choice([(290, 290), (290, 290), (64, 290), (290, 128)])
+    lay["mlc"] = rng.choice([13, 52, 100, 246, 255, 255, 0xFFFF, rng.randrange(5, 300)])
+    lay["mle"] = rng.choice([15, 59, 128, 255, 256, 0xFFFF])
+    ns = ns_of(lay)
+    lay["fsize"] = max(lay["fsize"], rng.choice([40, 300, 530, 700]))
+    pre = None
+    if opt == "minor" or rng.random() < 0.15:
+        lay["ver"], lay["tlv"] = C01_MINOR[(j // len(C01_EXTRA_OPTS)) % len(C01_MINOR)] if opt == "minor" else rng.choice(C01_MINOR)
+        ns = ns_of(lay)
+        lay["fsize"] = max(lay["fsize"], 7)
+    if opt == "cc_extra" or rng.random() < 0.15:
+        lay["cc_extra"] = C01_CC_EXTRA[(j // len(C01_EXTRA_OPTS)) % len(C01_CC_EXTRA)] if opt == "cc_extra" else rng.choice(C01_CC_EXTRA)
+        if opt == "cc_extra" and rng.random() < 0.5:
+            lay["mle"] = 15
+    cap = lay["fsize"] - ns
+    L = rng.choice([0, 1, cap, cap - 1, rng.randrange(cap + 1), rng.randrange(cap + 1)])
+    prev_len = rng.choice([0, 3, rng.randrange(cap + 1)])
+    if opt in ("mle15_long_prev", "shrink"):
+        lay["fsize"] = max(lay["fsize"], rng.choice([300, 530, 700, 1100]))
+        cap = lay["fsize"] - ns
+        if opt == "mle15_long_prev":
+            lay["mle"] = 15
+        prev_len = rng.choice([257, 258, cap, cap - 1, rng.randrange(257, cap + 1)])
+        L = rng.choice([0, 1, 2, prev_len - 1, prev_len // 2, 255, 256, 257, rng.randrange(prev_len)])
+    elif opt == "oversize":
+        L = (cap + 2, cap + 255, 65535, 65536, cap + 1, cap + 2)[(j // len(C01_EXTRA_OPTS)) % 6]
+    elif opt == "second":
+        L0 = rng.choice([cap, cap - 1, L + 1, L + 2, 2 * L + 1, L // 2, 0, rng.randrange(cap + 1)])
+        pre = [["write", max(0, min(L0, cap)), rng.randrange(1 << 30)]]
+    elif opt == "format_then_write":
+        pre = [["format", rng.choice([0, 0xA5, 0xFF, None, rng.randrange(256)])]]
+        lay["fsize"] = min(lay["fsize"], 530)
+        cap = lay["fsize"] - ns
+        L, prev_len = min(L, cap), min(prev_len, cap)
+    elif opt == "big_no_odo":
+        lay["ver"], lay["tlv"], lay["odo"] = rng.choice([0x30, 0x30, 0x31]), 6, False
+        lay["fsize"] = rng.choice([0x8001, 0x8004, 0x8100, 0x10008, 0xFFFF])
+        lay["mlc"], lay["mle"] = rng.choice([255, 255, 246, 0xFFFF]), rng.choice([255, 256, 0xFFFF])
+        lay["fsci"], lay["max_send"], lay["max_recv"] = 8, 290, 290
+        area = 0x8000 - 4
+        L = rng.choice([0, 7, 300, area, area - 1, area + 1]) if rng.random() < 0.5 else rng.randrange(600)
+        prev_len = rng.choice([0, 9])
+    case = {"family": FAM, "prop": "c01", "lay": lay, "L": max(0, L), "mseed": rng.randrange(1 << 30), "prev_len": max(0, prev_len)}
+    if pre:
+        case["pre"] = pre
+    return case, opt
 
 
 def run_c01(desc, R, rng):
     R.exhaustive = False
+    run_c01_modes(desc, R, rng)
+    # (behind the existing mode of the shard: its random stream does not depend on what follows)
+    if "res" in desc:
+        for case in residue_cases("c01", desc["res"], desc.get("tier") != "quick"):
+            ok = c01_eval(R, case)
+            R.case(("c01r", lay_key(case["lay"]), case["L"]), nontrivial=ok)
+            if ok:
+                R.count("t4t_c01_residue_cases")
+    for i in range(desc.get("extra", 0)):
+        case, opt = c01_extra_case(rng, desc.get("extra0", 0) + i)
+        lay = case["lay"]
+        if chunks_est(dict(lay, prev_len=case["prev_len"]), min(case["L"], lay["fsize"])) > 9000:
+            lay["fsci"], lay["max_send"], lay["max_recv"] = 8, 290, 290
+            lay["mlc"], lay["mle"] = max(lay["mlc"], 255), max(lay["mle"], 255)
+        ok = c01_eval(R, case)
+        R.case(("c01x", lay_key(lay), case["L"], str(case.get("pre"))), nontrivial=ok)
+        R.count("t4t_c01_extra_%s" % opt)
+
+
+def run_c01_modes(desc, R, rng):
     if desc["mode"] == "small":
         combos = [(15, 1), (15, 2), (16, 3), (255, 255), (59, 52), (15, 4), (300, 5), (0xFFFF, 0xFFFF)]
         for fsize in range(*desc["sizes"]):
@@ -442,8 +654,8 @@ def c02_eval(R, case, count=True):
                 R.count("t4t_c02_mlc>255_largest_length_within_mlc")
     ks = [case["k"]] if "k" in case else range(n + 1)
     for k in ks:
-        if k == n and not uncut_ok:
-            continue
+        # (k = n, the field lost right after the last command, is judged like every other cut: a write whose last command
+        # leaves something that is neither the old nor the new message is a mixture whoever else reports it)
         card.restore(snap)
         nw = len(card.write_log)
         try:
@@ -472,10 +684,35 @@ def c02_eval(R, case, count=True):
                     R.count("t4t_c02_mlc>255_within_mlc_midcuts_nlen%d" % ns)
                     if len(old) != len(new):
                         R.count("t4t_c02_mlc>255_within_mlc_midcuts_old_%s" % ("shorter" if len(old) < len(new) else "longer"))
+        # independent reference reader on the raw files (a fresh reader need not be nfcpy's)
+        try:
+            rv = bytes(ref.ref_read(card.files))
+            rview = ("msg", rv) if rv else ("empty",)
+        except ref.RefError:
+            rview = ("none",)
+        if count:
+            R.count("t4t_c02_ref_reads")
+        if rview[0] == "msg" and rview[1] != new and rview[1] != old:
+            o = rview[1]
+            kind = "old-prefix" if old.startswith(o) else ("old-length-new-data" if len(o) == len(old) else
+                                                           ("new-length-old-data" if len(o) == len(new) else "other"))
+            if not (view[0] == "msg" and view[1] == o):
+                # (when nfcpy's reader sees the same mixture it is reported once, below, under the signature it always had)
+                R.violation("t4t/c02/mixture-ref-reader/%s/%s" % (cls, kind),
+                            "cut after %d of %d UPDATE BINARY: the reference reader sees %d bytes, neither old (%d) nor new (%d); "
+                            "nfcpy's fresh reader: %s" % (k, n, len(o), len(old), len(new), view[0]), dict(case, k=k))
+        elif count:
+            R.count("t4t_c02_ref_view_%s" % ("none" if rview[0] == "none" else ("empty" if rview[0] == "empty" else
+                                                                               ("new" if rview[1] == new else "old"))))
         if view[0] == "raises":
+            # the statement lists what a fresh reader may see: an exception out of tag.ndef is none of it
             if count:
-                R.count("t4t_cut_outcome_reader_raised")     # C08's subject
+                R.count("t4t_cut_outcome_reader_raised")
+            R.violation("t4t/c02/fresh-reader-raises/%s/%s" % (cls, view[1]), "cut after %d of %d UPDATE BINARY: activating / reading the "
+                        "tag raised (%s)" % (k, n, view[1]), dict(case, k=k))
             continue
+        if count and (view[:1] != rview[:1] or (view[0] == "msg" and view[1] != rview[1])):
+            R.count("t4t_c02_readers_disagree")            # (not a C02 verdict: C01 / C08 judge nfcpy's reader)
         if view[0] == "none":
             out = "not_readable"
         elif view[0] == "empty":
@@ -490,6 +727,8 @@ def c02_eval(R, case, count=True):
             out = "new"
         if count:
             R.count("t4t_cut_outcome_" + out)
+            if k == n:
+                R.count("t4t_c02_cut_after_last_command_judged")
             if k < n and not cut_seen:
                 R.count("t4t_cut_not_noticed_by_writer")
         if out == "mixture":
@@ -506,8 +745,8 @@ def c02_eval(R, case, count=True):
 
 def plan_c02(tier):
     if tier == "quick":
-        return [{"n": 130, "nbig": 48, "big0": 48 * i} for i in range(3)]
-    return [{"n": 3500, "nbig": 1200, "big0": 1200 * i, "timeout": 1500} for i in range(6)]
+        return [{"n": 130, "nbig": 48, "big0": 48 * i, "res": i} for i in range(3)]
+    return [{"n": 3500, "nbig": 1200, "big0": 1200 * i, "res": i, "timeout": 1500} for i in range(6)]
 
 
 C02_BIG_MLC = (256, 257, 300, 1000, 2048, 0xFFFF)
@@ -560,6 +799,49 @@ def run_c02(desc, R, rng):
         if i < 1:
             R.sample({"t4t_c02_mlc>255": {k: case["lay"][k] for k in ("kind", "tlv", "mle", "mlc", "fsize")}, "old": case["old_len"],
                       "new": case["new_len"]})
+    if "res" in desc:
+        for case in residue_cases("c02", desc["res"], desc.get("tier") != "quick"):
+            ok = c02_eval(R, case)
+            R.case(("c02r", lay_key(case["lay"]), case["old_len"], case["new_len"]), nontrivial=ok)
+            if ok:
+                R.count("t4t_c02_residue_cases")
+                R.seen("t4t_c02_residue_mlc%d_ns%d" % (case["lay"]["mlc"], ns_of(case["lay"])),
+                       (case["new_len"] + ns_of(case["lay"])) % case["lay"]["mlc"])
+
+
+RES_VT = ((0x20, 4), (0x30, 6), (0x10, 4), (0x31, 6), (0x2F, 4), (0x11, 4))
+
+
+def residue_cases(prop, part, full=False):
+    """chunked writes whose last UPDATE BINARY carries 1, 2, ... MLc octets: message lengths with every residue of
+    (length + NLEN field) mod MLc for small MLc (all residues) and for MLc 52 / 255 (residues around 0), two and three
+    chunks, the old message longer / shorter / filling the file.  part selects mapping version and NLEN size"""
+    for vi, (ver, tlv) in enumerate(RES_VT):
+        if full and vi != part % len(RES_VT):
+            continue              # (thorough: one mapping version per shard, all of them over the shards)
+        if not full and vi % 3 != part % 3:
+            continue
+        if vi >= 3 and not full and part < 3:
+            continue
+        ns = 2 if tlv == 4 else 4
+        for mlc in (ns + 1, 5, 6, 7, 13, 52, 255):
+            if mlc <= ns:
+                continue
+            rs = range(mlc) if mlc <= 13 else (0, 1, 2, 3, 4, 5, mlc - 1)
+            for r in rs:
+                for chunks in ((2, 3) if (full or mlc <= 7) else (2,)):
+                    L = chunks * mlc + r - ns
+                    if L < 0:
+                        continue
+                    cap = (chunks + 1) * mlc + 6
+                    lay = {"kind": "AB"[(r + mlc) & 1], "fsci": (8, 8, 5, 2)[(r + chunks) % 4], "fwi": 4, "ver": ver, "tlv": tlv,
+                           "mle": (59, 255, 15)[(r + mlc) % 3], "mlc": mlc, "fsize": cap + ns, "fid": 0xE104, "max_send": 290,
+                           "max_recv": 290, "fill": (0, 0xFF, 0x5A)[r % 3]}
+                    old_len = (min(cap, L + 3), cap, L // 2, min(cap, L + 1))[(r + chunks) % 4]
+                    if prop == "c02":
+                        yield {"family": FAM, "prop": "c02", "lay": lay, "old_len": old_len, "new_len": L, "mseed": 1000 * mlc + r}
+                    else:
+                        yield {"family": FAM, "prop": "c01", "lay": lay, "L": L, "mseed": 1000 * mlc + r, "prev_len": old_len}
 
 
 def run_c02_small(desc, R, rng):
@@ -608,12 +890,11 @@ def c03_area(lay):
 
 
 def c03_eval(R, case, count=True):
-    from vf.sim import t4t
     lay = dict(case["lay"], decoy=True)
     prev = content(case["mseed"] + 1, case.get("prev_len", 0))
     lay["tail"] = content(case["mseed"] + 2, 64)
     guard = lay.get("guard", GUARD)
-    card = t4t.make_card(lay, prev, guard=guard)
+    card = mk_card(lay, prev, guard=guard)
     fid = card.ndef_fid
     fsize = lay["fsize"]
     tl = "tlv%02X" % lay.get("tlv", 4)
@@ -621,15 +902,25 @@ def c03_eval(R, case, count=True):
     op = case["op"]
     L = rep = None
     oversize = False
-    n0 = None
+    n0 = u0 = None
+    npre = 0
     try:
         clf, dev, tag = act(card, lay)
+        # history on the same object: an earlier assignment / format(wipe); every UPDATE BINARY of it is judged like the others
+        for pre in case.get("pre") or ():
+            if pre[0] == "write":
+                nd0 = tag.ndef
+                nd0.octets = content(pre[2], max(0, min(pre[1], nd0.capacity)))
+            else:
+                tag.format(wipe=pre[1])
+            npre += 1
         if op[0] in ("write", "write_rel"):
             ndef = tag.ndef
             rep = ndef.capacity
             L = op[1] if op[0] == "write" else max(0, rep + op[1])
             oversize = L > rep
             n0 = dev.n_commands
+            u0 = len(card.update_cmds)
             ndef.octets = content(case["mseed"], L)
             res = "ok"
         else:
@@ -644,15 +935,30 @@ def c03_eval(R, case, count=True):
         R.seen("t4t_c03_card", "guard%d/%s/%s" % (guard, lay.get("enforce", "physical"), lay.get("beyond_sw", "std")))
         if op[0] == "format" and op[1] is not None:
             R.count("t4t_c03_format_wipe")
+        if case.get("pre"):
+            R.count("t4t_c03_ops_with_history_on_the_same_object")
+            if npre == len(case["pre"]):
+                R.count("t4t_c03_history_%s_then_%s" % (case["pre"][0][0], op[0].replace("_rel", "")))
+        if lay["ver"] & 15:
+            R.count("t4t_c03_minor_version_ops")
+        if lay.get("cc_extra"):
+            R.count("t4t_c03_cc_with_further_tlvs_ops")
+        if lay["mle"] == 15:
+            R.count("t4t_c03_mle15_ops")
+        if len(prev) > 256:
+            R.count("t4t_c03_previous_message>256_ops")
     if oversize and n0 is not None:
         # a message longer than the capacity the tag object reports is refused before anything is sent
         if res == "ok":
             R.violation("t4t/c03/oversize-not-refused/accepted", "%d bytes written, reported capacity %d" % (L, rep), case)
-        elif dev.n_commands != n0:
-            R.violation("t4t/c03/oversize-not-refused/commands-sent", "%d commands reached the card for %d bytes, reported "
-                        "capacity %d (%s)" % (dev.n_commands - n0, L, rep, res), case)
+        elif len(card.update_cmds) != u0:
+            # (only write commands count here: what else is sent before the refusal is C01's business)
+            R.violation("t4t/c03/oversize-not-refused/commands-sent", "%d UPDATE BINARY commands reached the card for %d bytes, reported "
+                        "capacity %d (%s)" % (len(card.update_cmds) - u0, L, rep, res), case)
         elif count:
             R.count("t4t_c03_oversize_refused")
+            if dev.n_commands != n0:
+                R.count("t4t_c03_oversize_refused_after_other_commands")
     after = card.files
     nd = 0
     for f, old in before.items():
@@ -709,8 +1015,8 @@ def c03_eval(R, case, count=True):
 
 def plan_c03(tier):
     if tier == "quick":
-        return [{"n": 900}, {"n": 900}, {"n": 900}]
-    return [{"n": 40000, "timeout": 1500} for _ in range(6)]
+        return [{"n": 900, "extra": 200, "extra0": 200 * i} for i in range(3)]
+    return [{"n": 40000, "extra": 8000, "extra0": 8000 * i, "timeout": 1500} for i in range(6)]
 
 
 def run_c03(desc, R, rng):
@@ -748,6 +1054,55 @@ def run_c03(desc, R, rng):
         R.case(("c03", lay_key(lay), str(op)), nontrivial=ok)
         if i < 1:
             R.sample({"t4t_c03": {k: lay[k] for k in ("kind", "tlv", "mlc", "fsize", "guard", "enforce")}, "op": op})
+    run_c03_extra(desc, R, rng)
+
+
+def run_c03_extra(desc, R, rng):
+    """classes added to the generator, behind the existing loop: mapping minor versions, CC with further TLVs (one of them names
+    the unrelated EF), MLe 15, previous messages above 256 octets and shrinking writes, lengths capacity + 2 / + 255 / 65535 /
+    65536, a second assignment and format(wipe) then write / write then format(wipe) on the same object"""
+    for i in range(desc.get("extra", 0)):
+        j = desc.get("extra0", 0) + i
+        lay = gen_layout(rng, small=True)
+        lay["fid"] = 0xE104
+        lay["mlc"] = rng.choice([2, 5, 13, 52, 100, 246, 255, 255, rng.randrange(1, 256), 0xFFFF])
+        lay["mle"] = rng.choice([15, 15, 59, 255, 256])
+        if lay["mlc"] < 6:
+            lay["fsize"] = min(lay["fsize"], 120)
+        opt = ("minor", "cc_extra", "long_prev", "oversize", "second", "format_then_write", "write_then_format", "oversize_rel")[j % 8]
+        if opt == "minor" or rng.random() < 0.2:
+            lay["ver"], lay["tlv"] = C01_MINOR[(j // 8) % len(C01_MINOR)] if opt == "minor" else rng.choice(C01_MINOR)
+            lay["fsize"] = max(lay["fsize"], 7)
+        if opt == "cc_extra" or rng.random() < 0.2:
+            lay["cc_extra"] = C01_CC_EXTRA[(j // 8) % len(C01_CC_EXTRA)] if opt == "cc_extra" else rng.choice(C01_CC_EXTRA)
+        if opt == "long_prev":
+            lay["fsize"] = max(lay["fsize"], rng.choice([300, 530, 700]))
+            lay["mlc"] = max(lay["mlc"], 13)
+        lay["guard"], lay["enforce"], lay["beyond_sw"] = rng.choice(C03_CARDS)
+        cap = c03_area(lay)
+        prev_len = rng.choice([0, cap, rng.randrange(cap + 1)])
+        pre = None
+        op = ["write", max(0, rng.choice([cap, cap - 1, cap, 0, 1, rng.randrange(cap + 1)]))]
+        if opt == "long_prev":
+            prev_len = rng.choice([cap, cap - 1, rng.randrange(257, cap + 1)])
+            op = ["write", rng.choice([0, 1, prev_len // 2, prev_len - 1, rng.randrange(prev_len)])]
+        elif opt == "oversize":
+            op = ["write", (cap + 2, cap + 255, 65535, 65536)[(j // 8) % 4]]
+        elif opt == "oversize_rel":
+            op = ["write_rel", (2, 255, 3, 1)[(j // 8) % 4]]
+        elif opt == "second":
+            pre = [["write", rng.choice([cap, cap - 1, op[1] + 1, op[1] // 2, 0, rng.randrange(cap + 1)]), rng.randrange(1 << 30)]]
+        elif opt == "format_then_write":
+            pre = [["format", rng.choice([0, 0xA5, 0xFF, rng.randrange(256)])]]
+        elif opt == "write_then_format":
+            pre = [["write", rng.choice([cap, cap - 1, rng.randrange(cap + 1)]), rng.randrange(1 << 30)]]
+            op = ["format", rng.choice([0, 0xA5, None, rng.randrange(256)])]
+        case = {"family": FAM, "prop": "c03", "lay": lay, "op": op, "mseed": rng.randrange(1 << 30), "prev_len": prev_len}
+        if pre:
+            case["pre"] = pre
+        ok = c03_eval(R, case)
+        R.case(("c03x", lay_key(lay), str(op), str(pre)), nontrivial=ok)
+        R.count("t4t_c03_extra_%s" % opt)
 
 
 def replay_c03(case, R):
@@ -826,12 +1181,133 @@ def sstage(stage):
     return "read" if stage in ("ndef", "has_changed") else stage
 
 
+class JumpBudgetExceeded(BaseException):
+    pass
+
+
+C08_JUMPS = 3000000       # loop iterations inside nfc/tag/tt4.py per evaluation (largest fault free: < 10^5)
+
+
+class JumpBudget(object):
+    """logical progress monitor for nfc/tag/tt4.py: counts backward/unconditional jumps (one per loop iteration)
+    through sys.monitoring and raises into the monitored code when one evaluation exceeds the budget.  Code can only
+    run for ever by iterating or recursing, so a loop that sends no command is decided without a clock (the command bound of
+    the simulated device decides the loops that do send commands)"""
+    _inst = None
+
+    @classmethod
+    def get(cls):
+        if cls._inst is None:
+            cls._inst = cls()
+        return cls._inst
+
+    def __init__(self):
+        import sys
+        import types
+        import nfc.tag.tt4
+        self.count = 0
+        self.total = 0
+        self.limit = C08_JUMPS
+        self.active = False
+        mon = getattr(sys, "monitoring", None)
+        if mon is None:
+            return
+        tool = None
+        for t in (4, 3, 5):
+            try:
+                mon.use_tool_id(t, "vf-t4t-jumps")
+                tool = t
+                break
+            except ValueError:
+                continue
+        if tool is None:
+            return
+        seen = set()
+
+        def codes(obj):
+            if isinstance(obj, types.CodeType):
+                if obj not in seen:
+                    seen.add(obj)
+                    for c in obj.co_consts:
+                        codes(c)
+            elif isinstance(obj, types.FunctionType):
+                codes(obj.__code__)
+            elif isinstance(obj, (staticmethod, classmethod)):
+                codes(obj.__func__)
+            elif isinstance(obj, property):
+                for f in (obj.fget, obj.fset, obj.fdel):
+                    if f is not None:
+                        codes(f)
+            elif isinstance(obj, type):
+                for v in vars(obj).values():
+                    codes(v)
+
+        m = nfc.tag.tt4
+        for v in vars(m).values():
+            if getattr(v, "__module__", None) == m.__name__:
+                codes(v)
+
+        def on_jump(code, off, dst):
+            self.count += 1
+            if self.count > self.limit:
+                self.total += self.count
+                self.count = 0
+                raise JumpBudgetExceeded()
+
+        # (function entries are only counted where the code could recurse; tt4.py has no recursion today: JUMP alone keeps
+        # the monitor cheap, a recursion added later ends in RecursionError = an escape verdict)
+        mon.register_callback(tool, mon.events.JUMP, on_jump)
+        for c in seen:
+            mon.set_local_events(tool, c, mon.events.JUMP)
+        self.active = True
+
+    def start(self):
+        self.total += self.count
+        self.count = 0
+
+
+def c08_adaptive_hook(ad):
+    """stateful adversary: from frame ad['from'] on every I-block, R(ACK) and R(NAK) of the reader is answered with a CHAINED block
+    that carries the block number the reader expects (bit 1 of the received PCB), INF of ad['inf'] octets; after ad['len'] such
+    blocks (None: never) the chain ends with an unchained I-block + SW 9000; every ad['wtx']-th answer is preceded by an
+    S(WTX) request.  shape 'I': PCB 12h|n (chained I-block); 'R': the first answer to an I-block is 12h|n, the following ones
+    B2h|n (an R(NAK) shaped block: chaining bit position set, correct number)"""
+    inf = bytes(stream(b"ADV", ad.get("inf", 1))) if ad.get("inf", 1) else b""
+    st = {"n": 0, "pend": None}
+
+    def hook(n, data):
+        if n < ad["from"] or not data:
+            return None
+        pcb = data[0]
+        is_i = pcb & 0xE2 == 0x02 and not pcb & 0x0C
+        is_r = pcb & 0xE6 == 0xA2 and not pcb & 0x08 and len(data) == 1
+        if pcb & 0xF7 == 0xF2 and st["pend"] is not None:
+            out, st["pend"] = st["pend"], None
+            return ("replace", out)
+        if not (is_i or is_r):
+            return None
+        st["n"] += 1
+        if ad.get("len") is not None and st["n"] > ad["len"]:
+            out = bytes([0x02 | pcb & 1]) + b"\x90\x00"
+        elif ad.get("shape", "I") == "R" and is_r:
+            out = bytes([0xB2 | pcb & 1])
+        else:
+            out = bytes([0x12 | pcb & 1]) + inf
+        if ad.get("wtx") and st["n"] % ad["wtx"] == 0:
+            st["pend"] = out
+            return ("replace", b"\xF2\x01")
+        return ("replace", out)
+    return hook
+
+
 def c08_eval(R, case, count=True):
     import nfc.clf
     from vf.sim.tagdevice import SimTagDevice
     d = case["card"]
     card = card_from_raw(d)
-    faithful = not (case.get("apdu_over") or case.get("apdu_from") or case.get("block_over") or case.get("block_from"))
+    faithful = not (case.get("apdu_over") or case.get("apdu_from") or case.get("block_over") or case.get("block_from")
+                    or case.get("adaptive"))
+    adaptive = c08_adaptive_hook(case["adaptive"]) if case.get("adaptive") else None
     ao = {int(k): v for k, v in (case.get("apdu_over") or {}).items()}
     af = case.get("apdu_from")
     if ao or af:
@@ -849,6 +1325,8 @@ def c08_eval(R, case, count=True):
     def hook(n, data):
         if dead_from is not None and n >= dead_from:
             return ("cmd_lost", nfc.clf.TimeoutError)
+        if adaptive is not None:
+            return adaptive(n, data)
         if n in bo:
             return ("replace", bo[n])
         if bf and n >= bf[0]:
@@ -877,6 +1355,8 @@ def c08_eval(R, case, count=True):
     dev = None
     judged_cc = None
     length = 0
+    jb = JumpBudget.get()
+    jb.start()
     try:
         from vf.sim import tagdevice
         # the device is created inside activate(); the command counter is read back from the frontend afterwards
@@ -930,6 +1410,9 @@ def c08_eval(R, case, count=True):
         last = [b for b in devbox[-24:] if b]
         if last and all(b[0] & 0xF6 == 0xF2 for b in last):
             loop = "swtx-loop"
+        elif last and all(b[0] & 0xF6 in (0xA2, 0xF2) and len(b) <= 2 for b in last) and any(b[0] & 0xF6 == 0xA2 for b in last):
+            # the reader acknowledges block after block (R(ACK), possibly S(WTX) responses in between): the card keeps chaining
+            loop = "endless-response-chaining"
         elif last and all(b == last[0] and b[0] & 0xE2 == 0x02 for b in last):
             loop = "i-block-retransmit-loop"
         elif last and all(b[0] & 0xE2 == 0x02 and len(b) > 2 and b[2] == 0xB0 for b in last):
@@ -939,6 +1422,10 @@ def c08_eval(R, case, count=True):
         else:
             loop = "mixed"
         bad("nontermination/%s/%s" % (sstage(stage), loop), "more than %d commands in %s" % (bound, stage))
+        outcome = "bound"
+    except JumpBudgetExceeded:
+        bad("nontermination/%s/no-command-loop" % sstage(stage), "more than %d loop iterations inside nfc/tag/tt4.py in %s "
+            "(%d commands sent)" % (jb.limit, stage, dev.n_commands if dev is not None else -1))
         outcome = "bound"
     except Exception as e:        # noqa
         bad("escape/%s/%s" % (sstage(stage), tagsig(e)), "%s raised %r" % (stage, e))
@@ -963,6 +1450,22 @@ def c08_eval(R, case, count=True):
         R.count("t4t_c08_cls_" + case.get("cls", "x"))
         if dev is not None:
             R.max("t4t_c08_commands", dev.n_commands)
+        if jb.active:
+            R.count("t4t_c08_tt4_loop_iterations_monitored", jb.count)
+            R.max("t4t_c08_tt4_loop_iterations_per_case", jb.count)
+        if dv:
+            R.count("t4t_c08_device_buffers_varied")
+            R.seen("t4t_c08_device_buffers", "%d/%d" % (dv.get("max_send", 290), dv.get("max_recv", 290)))
+        ad = case.get("adaptive")
+        if ad:
+            R.count("t4t_c08_adaptive_cases")
+            R.seen("t4t_c08_adaptive_from_frame", min(ad["from"], 40))
+            R.seen("t4t_c08_adaptive_inf", ad.get("inf", 1))
+            R.count("t4t_c08_adaptive_%s" % ("endless" if ad.get("len") is None else "finite"))
+            if ad.get("wtx"):
+                R.count("t4t_c08_adaptive_wtx_interleaved")
+            if ad.get("len") is not None and outcome != "bound":
+                R.count("t4t_c08_adaptive_finite_chain_ended")
     return True
 
 
@@ -1089,6 +1592,87 @@ def c08_cases(rng, tier, which, size=None):
         for c in c08_big_cases(rng, size or 120 * reps):
             yield c
         return
+    if which == "act_trunc":
+        # every ATS variant (subset of TA/TB/TC x historical bytes) cut at every length with TL unchanged (the frame is
+        # shorter than TL announces), and with 1..2 surplus octets behind TL; SENSB_RES (basic and extended) cut at every length
+        from vf.sim.t4t import build_ats
+        hists = range(16) if tier != "quick" else (0, 1, 2, 3, 7, 15)
+        for sub in range(8):
+            for nh in hists:
+                fsci, fwi = rng.choice([8, 5, 2, 0]), rng.choice([4, 8, 11, 14])
+                ats = build_ats(fsci, fwi, rng.randrange(16), ta=rng.choice([0, 0x80, 0x77]) if sub & 1 else None,
+                                tb=bool(sub & 2), tc=rng.choice([0, 2, 3]) if sub & 4 else None, hist=content(nh, nh))
+                d0, _f = raw_valid(rng, msg_len=rng.choice([0, 5, 40]))
+                d0["kind"], d0["fsci"], d0["fwi"] = "A", fsci, fwi if sub & 2 else 4
+                for cut in list(range(len(ats))) + [len(ats) + 1, len(ats) + 2]:
+                    d = dict(d0)
+                    d["ats"] = ats[:cut] if cut < len(ats) else ats + content(cut, cut - len(ats))
+                    yield base(d, "ats_truncated" if cut < len(ats) else "ats_surplus")
+        for ext in (False, True):
+            for fsci, fwi in ((8, 4), (2, 14), (0, 9), (15, 15)):
+                d0, _f = raw_valid(rng, msg_len=rng.choice([0, 5, 40]))
+                d0["kind"], d0["fsci"], d0["fwi"] = "B", min(fsci, 8), min(fwi, 14)
+                full = b"\x50" + bytes.fromhex("30702A1C") + bytes(4) + bytes([0, fsci << 4 | 1, fwi << 4 | 5])
+                if ext:
+                    full += bytes([rng.randrange(256)])
+                for cut in range(len(full) + 1):
+                    d = dict(d0)
+                    d["sensb"] = full[:cut]
+                    yield base(d, "sensb_truncated")
+        return
+    if which in ("adaptive", "stops_x"):
+        from vf.sim import tagdevice
+        n = size or 40 * reps
+        acts = [c["card"] for c in c08_cases(rng, "quick", "activation")] if which == "stops_x" else []
+        for i in range(n):
+            if which == "adaptive":
+                d, f = raw_valid(rng, msg_len=rng.choice([0, 5, 40, 300]))
+                src = "valid"
+            elif i % 3 == 2:
+                # activation variant: the card stops answering behind an unusual ATS / SENSB_RES
+                d = rng.choice(acts)
+                src = "activation"
+            else:
+                d = next(c08_cases(rng, tier, "files", 1))["card"]
+                src = "files"
+            dv = rng.choice(C08_DEVS)
+            card = card_from_raw(d)
+            seen_frames = [0]
+
+            def counter(n, data, _c=seen_frames):
+                _c[0] = n + 1
+                return None
+            try:
+                clf, dev, tag = tagdevice.activate(card, command_bound=6000, max_send=dv[0], max_recv=dv[1], script=counter)
+                nd = tag.ndef if tag is not None else None
+                if nd is not None:
+                    nd.has_changed
+            except Exception:     # noqa  (judged by the case with dead_from behind the last frame / by the other groups)
+                pass
+            nfr = seen_frames[0]
+            devd = {"max_send": dv[0], "max_recv": dv[1]}
+            if which == "stops_x":
+                for j in range(min(nfr, 60 if tier == "quick" else 400) + 1):
+                    yield base(d, "stop_x_" + src, dead_from=j, dev=devd)
+                continue
+            biggest = max([len(raw_file(v)) for v in d["files"].values()] + [0])
+            js = list(range(1, nfr)) if tier != "quick" else sorted(set([1] + rng.sample(range(1, max(2, nfr)), min(2, max(1, nfr - 1)))))
+            for j in js:
+                inf = rng.choice([253, 253, 200]) if tier == "quick" else rng.choice([253, 125, 60, 32, 13])
+                if tier != "quick" and rng.random() < 0.04:
+                    inf = rng.choice([1, 0, 0])
+                # bound: frames in front of the adversary + what a reader that accepts the largest extended APDU response
+                # (65536 + 2 octets) would acknowledge + the rest of the procedure
+                room = 3000 if inf == 0 else -(-65538 // inf)
+                ad = {"from": j, "inf": inf, "wtx": rng.choice([0, 0, 1, 2, 7]), "shape": rng.choice("IIR")}
+                # (two exchanges can meet the adversary: the one inside has_changed and the first of the re-read that follows)
+                frames = room + (room // ad["wtx"] if ad["wtx"] else 0) + 2
+                yield base(d, "adaptive_chain", adaptive=ad, bound=j + 2 * frames + 80, dev=devd)
+                if tier != "quick" or j == js[0]:
+                    k = rng.choice([2, 5, 40, 260])
+                    yield base(d, "adaptive_chain_finite", adaptive=dict(ad, len=k, inf=min(inf, 253)),
+                               bound=j + (k + 2) * (2 if ad["wtx"] else 1) + 300 + 3 * biggest, dev=devd)
+        return
     if which == "responses":
         from vf.sim import tagdevice
         n = size or 110 * reps
@@ -1104,7 +1688,10 @@ def c08_cases(rng, tier, which, size=None):
             except Exception:     # noqa  (a valid card that cannot be read is reported by the 'files' group / C01)
                 pass
             na, nfr = len(card.apdu_log), dev.n_commands
-            na, nfr = min(na, 40), min(nfr, 60)
+            if tier == "quick":
+                na, nfr = min(na, 40), min(nfr, 60)
+            R_max = 400           # (thorough: every position of the longest fault free run of these cards)
+            na, nfr = min(na, R_max), min(nfr, R_max)
             for j in range(nfr + 1):
                 yield base(d, "stop_positions", dead_from=j)
             for j in range(na):
@@ -1216,20 +1803,29 @@ def c08_big_counters(R, case, card, outcome, judged_cc, sigs):
 
 def plan_c08(tier):
     if tier == "quick":
-        # (the class added last runs behind an existing group: the number of shards and the random streams of the other groups
-        # and of the families planned behind this one stay what they were)
-        return [{"which": [["activation", None], ["files", 6000]]}, {"which": [["responses", 42], ["big", 240]]},
-                {"which": [["responses", 42]]}]
-    return ([{"which": [["activation", None], ["files", 40000]], "timeout": 1500}] +
-            [{"which": [["files", 60000]], "timeout": 1500} for _ in range(2)] +
-            [{"which": [["responses", 300]], "timeout": 1500} for _ in range(4)] +
+        # (the classes added last run behind the existing groups: the number of shards and the random streams of the other
+        # groups and of the families planned behind this one stay what they were)
+        return [{"which": [["activation", None], ["files", 6000], ["act_trunc", None]]},
+                {"which": [["responses", 42], ["big", 240], ["adaptive", 20]]},
+                {"which": [["responses", 42], ["stops_x", 90]]}]
+    return ([{"which": [["activation", None], ["files", 40000], ["act_trunc", None]], "timeout": 1500}] +
+            [{"which": [["files", 60000], ["stops_x", 1500]], "timeout": 1500} for _ in range(2)] +
+            [{"which": [["responses", 300], ["adaptive", 60]], "timeout": 1500} for _ in range(4)] +
             [{"which": [["responses", 300], ["big", 4000]], "timeout": 1500}])
+
+
+# device frame buffers (max_send, max_recv): nfcpy limits FSC to max_send and announces FSD 128 below 256
+C08_DEVS = ((290, 290), (64, 290), (290, 64), (128, 128), (256, 256), (64, 64), (32, 40), (290, 128), (256, 290))
 
 
 def run_c08(desc, R, rng):
     n = 0
     for which, size in desc["which"]:
         for case in c08_cases(rng, desc.get("tier", "quick"), which, size):
+            if n % 5 == 4 and "dev" not in case and not case.get("big"):
+                # device buffers varied by position in the run (no draw: the random streams stay what they were)
+                dv = C08_DEVS[(n // 5) % len(C08_DEVS)]
+                case["dev"] = {"max_send": dv[0], "max_recv": dv[1]}
             c08_eval(R, case)
             key = hashlib.blake2b(repr(sorted((k, repr(v)) for k, v in case.items())).encode(), digest_size=8).digest()
             R.case(key)
@@ -1242,6 +1838,19 @@ def run_c08(desc, R, rng):
                     R.seen("t4t_c08_extended_atqb_sfgi", case["card"]["sensb"][12] >> 4)
             elif case["cls"] == "stop_positions":
                 R.count("t4t_c08_stop_positions")
+            elif case["cls"] in ("ats_truncated", "ats_surplus", "sensb_truncated"):
+                R.count("t4t_c08_" + case["cls"])
+                if case["cls"] == "ats_truncated":
+                    a = case["card"]["ats"]
+                    R.seen("t4t_c08_ats_truncated_len", len(a))
+                    if len(a) >= 2 and a[1] & 0x20 and len(a) <= 2 + (a[1] >> 4 & 1) < a[0]:
+                        R.count("t4t_c08_ats_truncated_before_announced_TB1")
+                    if len(a) == 1 and a[0] > 1:
+                        R.count("t4t_c08_ats_truncated_before_T0")
+                elif case["cls"] == "sensb_truncated":
+                    R.seen("t4t_c08_sensb_truncated_len", len(case["card"]["sensb"]))
+            elif case["cls"].startswith("stop_x_"):
+                R.count("t4t_c08_" + case["cls"])
             if n < 1:
                 R.sample({"t4t_c08": case["cls"], "kind": case["card"]["kind"]})
             n += 1
@@ -1271,7 +1880,7 @@ def c16_session(case):
 
 
 def c16_prepare(tag, op):
-    if op in ("changed", "write1", "writeN", "apdu_rd"):
+    if op in ("changed", "write1", "writeN", "apdu_rd", "apdu_rdL"):
         assert tag.ndef is not None
 
 
@@ -1299,9 +1908,31 @@ def c16_do(tag, op, case):
         return bytes(tag.send_apdu(0x00, 0xA4, 0x04, 0x00, ref.AID_V2 if lay["ver"] >> 4 > 1 else ref.AID_V1, 256)).hex()
     if op == "apdu_rd":
         return bytes(tag.send_apdu(0x00, 0xB0, 0x00, 0x00, mrl=min(lay["mle"], lay["fsize"], 40), check_status=False)).hex()
+    if op == "apdu_rdL":
+        # one long READ BINARY: with a small FSC the response is chained over many blocks
+        return bytes(tag.send_apdu(0x00, 0xB0, 0x00, 0x00, mrl=min(lay["mle"], lay["fsize"], 255), check_status=False)).hex()
     if op == "xcv":
         return bytes(tag.transceive(bytes.fromhex("00A4000C02E103") if lay["ver"] >> 4 > 1 else bytes.fromhex("00A4000002E103"))).hex()
+    # ---- follow-up operations of the session class (same tag object, healthy link)
+    if op == "reread":
+        nd = tag.ndef
+        if nd is None:
+            return None
+        nd.has_changed
+        nd = tag.ndef
+        return None if nd is None else nd.octets.hex()
+    if op == "write2":
+        nd = tag.ndef
+        if nd is None:
+            return "no-ndef"
+        nd.octets = c16_write2_content(case)
+        return "written"
     raise ValueError(op)
+
+
+def c16_write2_content(case):
+    lay = case["lay"]
+    return content(case.get("mseed", 1) + 7, max(0, min(lay["fsize"] - ns_of(lay), case.get("w2len", 11))))
 
 
 def c16_reference(case):
@@ -1310,7 +1941,12 @@ def c16_reference(case):
     base = dev.n_commands
     a0 = len(card.apdu_log)
     res = c16_do(tag, case["op"], case)
-    return {"res": res, "mem": card.snapshot(), "apdus": [a for a, r in card.apdu_log[a0:]], "frames": dev.n_commands - base}
+    out = {"res": res, "mem": card.snapshot(), "apdus": [a for a, r in card.apdu_log[a0:]], "frames": dev.n_commands - base}
+    if case.get("after"):
+        out["after"] = [c16_do(tag, op2, case) for op2 in case["after"]]
+        out["mem_after"] = card.snapshot()
+        out["frames_after"] = dev.n_commands - base - out["frames"]
+    return out
 
 
 def c16_eval(R, case, refrun=None, count=True):
@@ -1319,20 +1955,40 @@ def c16_eval(R, case, refrun=None, count=True):
     import nfc.tag.tt4 as tt4
     from vf.sim.tagdevice import SimTagDevice
     op, pos, kind, burst, flavour = case["op"], case["pos"], case["kind"], case["burst"], case["flavour"]
-    if refrun is None:
+    pat = case.get("pattern")
+    if refrun is None or (case.get("after") and "after" not in refrun):
         refrun = c16_reference(case)
     exc = {"TO": nfc.clf.TimeoutError, "TE": nfc.clf.TransmissionError, "PE": nfc.clf.ProtocolError}[kind]
     errno = {"TO": nfc.tag.TIMEOUT_ERROR, "TE": nfc.tag.RECEIVE_ERROR, "PE": nfc.tag.PROTOCOL_ERROR}[kind]
-    card, clf, dev, tag = c16_session(case)
-    c16_prepare(tag, op)
+    try:
+        card, clf, dev, tag = c16_session(case)
+        if tag is None:
+            raise ValueError("no tag")
+        c16_prepare(tag, op)
+    except Exception as e:        # noqa   (fault free preparation: not a cell of this property)
+        R.inconc("t4t c16: fault free activation / preparation for %s failed: %r" % (op, e))
+        return False
     base = dev.n_commands
+    log0 = len(dev.log)
     a0 = len(card.apdu_log)
     swtx0 = card.blocks["tx_SWTX"]
     hit = []
 
     def hook(n, data):
+        # fault script.  no pattern: frames pos..pos+burst-1;  "sel": from frame pos on every frame of one block type (the
+        # long I-blocks / the short R-blocks) up to `count` frames;  "multi": bursts of `burst` frames every `stride` frames
         i = n - base
-        if pos <= i < pos + burst:
+        if i < pos:
+            return None
+        if pat is None:
+            f = i < pos + burst
+        elif pat["type"] == "sel":
+            pcb = data[0] if data else 0
+            t = "I" if pcb & 0xE2 == 0x02 else ("R" if pcb & 0xE6 == 0xA2 else "S")
+            f = t == pat["what"] and len(hit) < pat["count"]
+        else:
+            f = (i - pos) // pat["stride"] < pat["groups"] and (i - pos) % pat["stride"] < burst
+        if f:
             hit.append(i)
             return ("cmd_lost" if flavour == "cmd" else "rsp_lost", exc)
         return None
@@ -1353,6 +2009,11 @@ def c16_eval(R, case, refrun=None, count=True):
     dev.command_bound = None
     n_budget = 0 if (kind == "PE" or op == "present") else budget(case["lay"]["fwi"])
     within = len(hit) <= n_budget
+    if pat is not None and pat["type"] == "multi" and burst <= n_budget and pat["stride"] >= burst + 2:
+        # every burst stays within the budget of one block and at least two undisturbed frames follow it: the block that
+        # was hit is complete (R(NAK) -> R(ACK) -> repeated I-block at the latest) before the next burst starts
+        within = True
+    pcls = "" if pat is None else ("/" + pat["type"] + ("-" + pat["what"] if pat["type"] == "sel" else ""))
     ctx = "wtx" if card.blocks["tx_SWTX"] > swtx0 else "plain"
     apdus = [a for a, r in card.apdu_log[a0:]]
 
@@ -1381,8 +2042,8 @@ def c16_eval(R, case, refrun=None, count=True):
         bad("nontermination/%s/%s" % (op, ctx), "%s did not end under a burst of %d" % (op, burst))
     elif within:
         if out != ("ret", refrun["res"]):
-            bad("not-survived/%s/%s/%s" % (op, kind, ctx), "burst %d <= budget %d (%s lost at frame %d) but the result is %r, fault free %r"
-                % (len(hit), n_budget, flavour, pos, out, refrun["res"]))
+            bad("not-survived/%s/%s/%s%s" % (op, kind, ctx, pcls), "%d faulted frames, burst %d <= budget %d (%s lost from frame %d, "
+                "pattern %s) but the result is %r, fault free %r" % (len(hit), burst, n_budget, flavour, pos, pat, out, refrun["res"]))
         else:
             if card.snapshot() != refrun["mem"]:
                 bad("memory-differs/%s/%s" % (op, ctx), "same result but the final memory differs from the fault free run")
@@ -1395,7 +2056,7 @@ def c16_eval(R, case, refrun=None, count=True):
         if out[0] == "t4err":
             ok = out[1] == errno
             if not ok:
-                bad("errno-mismatch/%s/%s/%s" % (op, kind, ctx), "Type4TagCommandError errno %s for injected %s" % (out[1], kind))
+                bad("errno-mismatch/%s/%s/%s%s" % (op, kind, ctx, pcls), "Type4TagCommandError errno %s for injected %s" % (out[1], kind))
                 ok = True
         elif op == "ndef":
             ok = out[1] is None or out[1] == refrun["res"]
@@ -1419,6 +2080,32 @@ def c16_eval(R, case, refrun=None, count=True):
             break
     if count:
         R.count("t4t_c16_dup_checked")
+    # "repeating the command a bounded number of times": the same I-block (same PCB, same INF: consecutive exchanges differ in
+    # the block number) goes out at most 1 + budget times; S(WTX) renews the budget, so only judged without WTX
+    if ctx == "plain":
+        cur, cnt, run_max = None, 0, 0
+        for _n, cmd, _rsp in dev.log[log0:]:
+            if cmd and cmd[0] & 0xE2 == 0x02:
+                cur, cnt = (cur, cnt + 1) if cmd == cur else (cmd, 1)
+                run_max = max(run_max, cnt)
+        if run_max > 1 + n_budget:
+            bad("i-block-sent-more-often-than-budget/%s/%s%s" % (op, kind, pcls), "the same I-block was sent %d times, retry budget %d "
+                "(%s lost from frame %d, pattern %s)" % (run_max, n_budget, flavour, pos, pat))
+        if count:
+            R.count("t4t_c16_resend_bound_judged")
+            R.max("t4t_c16_same_i_block_sent", run_max)
+    if count and pat is not None:
+        R.count("t4t_c16_pattern_%s_cells" % pat["type"])
+        if pat["type"] == "sel":
+            R.count("t4t_c16_pattern_sel_%s_%s_lost" % (pat["what"], flavour))
+            if not within and out[0] == "t4err":
+                R.count("t4t_c16_pattern_sel_beyond_budget_errno_judged")
+        else:
+            R.max("t4t_c16_pattern_multi_faulted_frames", len(hit))
+            if within and len(hit) > n_budget:
+                R.count("t4t_c16_pattern_multi_more_faults_than_budget_each_burst_within")
+                if out == ("ret", refrun["res"]):
+                    R.count("t4t_c16_pattern_multi_survived")
     # always-on clause (every position, every burst): an operation that returns normally returns the fault free result or
     # its documented failure value; with the fault free result the card memory is the fault free memory
     if not flagged and out[0] == "ret":
@@ -1443,7 +2130,86 @@ def c16_eval(R, case, refrun=None, count=True):
                 "but the final card memory differs" % (kind, burst, flavour, pos, str(res)[:60]))
         elif count:
             R.count("t4t_c16_normal_return_same_result_same_memory")
+    if case.get("after"):
+        c16_followups(R, case, refrun, card, dev, tag, survived=(within and not flagged and out == ("ret", refrun["res"])),
+                      flagged=bool(flagged), count=count)
     return True
+
+
+def c16_followups(R, case, refrun, card, dev, tag, survived, flagged, count):
+    """session class: after the faulted operation further operations run on the SAME tag object over a healthy link.
+    After a survived fault they must behave as in the fault free session.  After a reported failure nothing is promised
+    about recovery, but still: only TagCommandError / documented failure values, and a value that is returned normally must be
+    true for the card as it is (no stale or foreign response taken for the answer)"""
+    import nfc.tag.tt4 as tt4
+    from vf.sim.tagdevice import SimTagDevice
+    op1 = case["op"]
+    dev.command_bound = dev.n_commands + 60 + 8 * refrun.get("frames_after", 30)
+    for idx, op2 in enumerate(case["after"]):
+        a_before = len(card.apdu_log)
+        try:
+            out = ("ret", c16_do(tag, op2, case))
+        except tt4.Type4TagCommandError as e:
+            out = ("t4err", e.errno)
+        except SimTagDevice.Bound as e:
+            out = ("bound", e)
+        except BaseException as e:    # noqa
+            out = ("escape", e)
+        if count:
+            R.count("t4t_c16_session_followups")
+            R.count("t4t_c16_session_followup_%s_%s" % (op2, out[0]))
+        where = "%s-after-%s" % (op2, op1)
+        if flagged:
+            continue
+        if out[0] == "escape":
+            R.violation("t4t/c16/session/escape/%s/%s" % (where, tagsig(out[1])), "%s on the same object after a faulted %s raised %r"
+                        % (op2, op1, out[1]), case)
+            break
+        if out[0] == "bound":
+            R.violation("t4t/c16/session/nontermination/%s" % where, "%s on the same object after a faulted %s did not end" % (op2, op1), case)
+            break
+        want = refrun["after"][idx]
+        if survived:
+            if out != ("ret", want):
+                R.violation("t4t/c16/session/not-healthy-after-survived-fault/%s" % where, "the fault in %s was survived, then %s gives %r, "
+                            "fault free session %r" % (op1, op2, str(out)[:70], str(want)[:70]), case)
+                break
+            if count:
+                R.count("t4t_c16_session_after_survived_same")
+            continue
+        if out[0] != "ret":
+            continue                  # a TagCommandError after a reported failure: allowed
+        res = out[1]
+        try:
+            actual = bytes(ref.ref_read(card.files)).hex()
+        except ref.RefError:
+            actual = None
+        ok = True
+        if op2 == "reread":
+            ok = res is None or actual is None or res == actual
+        elif op2 == "write2":
+            ok = res == "no-ndef" or actual == c16_write2_content(case).hex()
+        elif op2 == "present":
+            ok = isinstance(res, bool)
+        elif op2 in ("apdu", "xcv"):
+            # what is returned is what the card answered to the APDU it executed for this call (after a broken command chain the
+            # card may have understood another APDU: still its answer; nothing executed = a stale response was taken)
+            done = [r for a, r in card.apdu_log[a_before:] if r is not None]
+            ok = bool(done) and (res if op2 == "xcv" else res + "9000") == bytes(done[-1]).hex()
+        if not ok:
+            R.violation("t4t/c16/session/silent-wrong-result/%s" % where, "after a failed %s, %s returned %r without any error; the card "
+                        "holds %r (fault free session: %r)" % (op1, op2, str(res)[:60], str(actual)[:60], str(want)[:60]), case)
+            break
+        if count:
+            R.count("t4t_c16_session_after_failure_judged")
+    else:
+        if survived and not flagged:
+            if card.snapshot() != refrun["mem_after"]:
+                R.violation("t4t/c16/session/memory-differs/after-%s" % op1, "survived fault, same results, but the final memory differs "
+                            "from the fault free session", case)
+            elif count:
+                R.count("t4t_c16_session_survived_same_memory")
+    dev.command_bound = None
 
 
 C16_CONFIGS = [
@@ -1465,15 +2231,18 @@ def c16_thorough_configs():
 
 def plan_c16(tier):
     if tier == "quick":
-        return [{"cfgs": [0, 3, 6]}, {"cfgs": [1, 4, 7]}, {"cfgs": [2, 5, 8]}]
+        return [{"cfgs": [0, 3, 6]}, {"cfgs": [1, 4, 7], "sweep": 0}, {"cfgs": [2, 5, 8]}]
     n = len(c16_thorough_configs())
-    return [{"cfgs": list(range(i, n, 16)), "full": True, "timeout": 1500} for i in range(16)]
+    return [dict({"cfgs": list(range(i, n, 16)), "full": True, "timeout": 1500}, **({"sweep": i} if i < 3 else {})) for i in range(16)]
 
 
 C16_QUICK_VARIANTS = (((0x20, 4), (0x30, 6)), ((0x30, 6), (0x10, 4)), ((0x10, 4), (0x20, 4)))
 
 
 def run_c16(desc, R, rng):
+    vi = 0
+    if desc.get("sweep") is not None:
+        c16_sweep(R, bool(desc.get("full")), desc["sweep"])
     for ci in desc["cfgs"]:
         kind, fsci, fwi, wtxp, mlc = (c16_thorough_configs() if desc.get("full") else C16_CONFIGS)[ci]
         for ver, tlv in ((0x20, 4), (0x30, 6), (0x10, 4)) if desc.get("full") else C16_QUICK_VARIANTS[ci % 3]:
@@ -1494,7 +2263,123 @@ def run_c16(desc, R, rng):
                                 case = dict(proto, pos=pos, kind=k, burst=burst, flavour=fl)
                                 ok = c16_eval(R, case, refrun)
                                 R.case(("c16", lay_key(lay), wtxp, op, pos, k, burst, fl), nontrivial=ok)
+            c16_extra(R, lay, wtxp, bool(desc.get("full")), vi)
+            vi += 1
             R.sample({"t4t_c16": {"kind": kind, "fsci": fsci, "fwi": fwi, "wtx": wtxp, "budget": budget(fwi)}})
+
+
+def c16_sweep(R, full, part):
+    """session sub-class: a chunked write whose UPDATE BINARY commands are chained over several I-blocks (FSC 16) is abandoned
+    at every block of the first command (persistent loss of the command or of the answer), then a message of every length
+    0..26 is assigned on the same object at once: the card may still hold the blocks of the unfinished command chain"""
+    for kind, fwi, vt in ((("A", 10, (0x20, 4)),) if not full else (("A", 10, (0x20, 4)), ("B", 4, (0x30, 6)), ("A", 11, (0x10, 4)))[part % 3:][:1]):
+        lay = {"kind": kind, "fsci": 0, "fwi": fwi, "ver": vt[0], "tlv": vt[1], "mle": 59, "mlc": 52, "fsize": 90,
+               "fid": 0xE104, "max_send": 290, "max_recv": 290}
+        proto = {"family": FAM, "prop": "c16", "lay": lay, "wtxp": False, "op": "writeN", "mseed": 5, "prev_len": 21,
+                 "after": ["write2", "reread"]}
+        for w2 in range(27):
+            try:
+                refrun = c16_reference(dict(proto, w2len=w2))
+            except Exception as e:      # noqa
+                R.inconc("t4t c16 reference session writeN + write2(%d) failed: %r" % (w2, e))
+                continue
+            for pos in range(min(6, refrun["frames"]) if full else 4):
+                for k, b in (("TO", 99),) if not full else (("TO", 99), ("PE", 1), ("TE", budget(fwi) + 1)):
+                    for fl in ("cmd", "rsp"):
+                        case = dict(proto, w2len=w2, pos=pos, kind=k, burst=b, flavour=fl)
+                        ok = c16_eval(R, case, refrun)
+                        R.case(("c16s", lay_key(lay), w2, pos, k, b, fl), nontrivial=ok)
+                        R.count("t4t_c16_session_abandoned_chain_then_write_cells")
+
+
+# follow-up operations of the session class (on the same tag object, healthy link)
+C16_AFTERS = (("reread", "write2"), ("write2", "reread"), ("apdu", "reread"), ("present", "xcv"), ("xcv", "reread"), ("reread", "present"))
+
+
+def c16_positions(frames, full, k=4):
+    if full or frames <= k + 2:
+        return list(range(frames))
+    return sorted(set([0, 1] + [2 + (frames - 3) * i // (k - 1) for i in range(k)]))
+
+
+def c16_extra(R, lay, wtxp, full, vi):
+    """cells beyond the contiguous burst (all deterministic):
+    budget   bursts of exactly budget and budget + 1 frames where the standard bursts 1..4, 99 do not contain them
+    sel      from frame p on every I-block (long frame) or every R-block (short frame) is lost, `count` times: the alternating
+             pattern I lost / R delivered / I lost ... (and its mirror image), below, at and beyond the budget
+    multi    bursts within the budget every burst + 2 (and + 3) frames through the whole operation: many transient errors,
+             each on another block of one exchange; judged as 'within budget'
+    session  faulted operation, then two operations on the same object without faults
+    geometry 2 (MLe 255, file 600, message 300): READ BINARY answers chained over up to 20 blocks with small FSC"""
+    nb = budget(lay["fwi"])
+    geoms = [(lay, 21, ("apdu", "writeN", "ndef", "format", "apdu_rd", "write1"))]
+    if full or vi % 2 == 0:
+        geoms.append((dict(lay, mle=255, fsize=600), 300, ("ndef", "apdu_rdL", "dump") if full else ("ndef", "apdu_rdL")))
+    for gi, (lg, prev_len, ops) in enumerate(geoms):
+        for oi, op in enumerate(ops):
+            proto = {"family": FAM, "prop": "c16", "lay": lg, "wtxp": wtxp, "op": op, "mseed": 5, "prev_len": prev_len}
+            try:
+                refrun = c16_reference(proto)
+            except Exception as e:      # noqa
+                R.inconc("t4t c16 reference run of %s failed: %r" % (op, e))
+                continue
+            frames = refrun["frames"]
+            chained = frames > len(refrun["apdus"])          # command or response chaining: R(ACK) blocks on the wire
+            R.max("t4t_c16_frames_per_op_extra", frames)
+            cells = []
+            for pos in c16_positions(frames, full, 4 if gi == 0 else 5):
+                for k in ("TO", "TE"):
+                    if gi == 0:
+                        for b in (nb, nb + 1):
+                            if b not in (0, 1, 2, 3, 4):
+                                for fl in ("cmd", "rsp") if full else (("cmd", "rsp")[(pos + b) % 2],):
+                                    cells.append(dict(proto, pos=pos, kind=k, burst=b, flavour=fl))
+                        for what, fl in (("I", "cmd"), ("R", "cmd"), ("I", "rsp")) + ((("R", "rsp"),) if full else ()):
+                            if what == "R" and not chained:
+                                continue          # no R-block in the fault free run and none after a lost I-block response
+                            if not full and op in ("format", "write1"):
+                                continue
+                            for cnt in sorted(set(c for c in (nb, nb + 1, 99) if c > 0)):
+                                if not full and (cnt == nb + 1 or (cnt != 99 and (fl == "rsp" or pos % 2))):
+                                    continue
+                                cells.append(dict(proto, pos=pos, kind=k, burst=1, flavour=fl,
+                                                  pattern={"type": "sel", "what": what, "count": cnt}))
+                    if nb >= 1 and (gi == 1 or full or pos % 2 == 0):
+                        for b in sorted(set([1, nb])):
+                            if not full and gi == 0 and b > 1 and pos:
+                                continue
+                            for stride in ((b + 2, b + 3) if full else (b + 2,)):
+                                for fl in ("cmd", "rsp"):
+                                    cells.append(dict(proto, pos=pos, kind=k, burst=b, flavour=fl,
+                                                      pattern={"type": "multi", "stride": stride, "groups": 99}))
+                if (gi == 0 and (full or op not in ("apdu", "write1", "apdu_rd"))) or full:
+                    for k in ("TO", "TE", "PE") if full else (("TO", "TE", "PE")[(pos + vi + oi) % 3],):
+                        for b in (1, 99) if not full else (1, nb + 1, 99):
+                            for fl in ("cmd", "rsp"):
+                                # (quick: a persistent fault of both flavours at every position, single faults alternating)
+                                if not full and b == 1 and (pos + (fl == "cmd")) % 2:
+                                    continue
+                                after = C16_AFTERS[(pos + oi + vi + len(cells)) % len(C16_AFTERS)]
+                                if b != 1 and op in ("writeN", "write1", "format") and (full is False or fl == "rsp"):
+                                    # a write abandoned in the middle (possibly inside a command chain), then a write at once
+                                    after = C16_AFTERS[1]
+                                cells.append(dict(proto, pos=pos, kind=k, burst=b, flavour=fl, after=list(after)))
+            refs = {}
+            for case in cells:
+                key = tuple(case.get("after") or ())
+                if key not in refs:
+                    try:
+                        refs[key] = c16_reference(case) if key else refrun
+                    except Exception as e:      # noqa
+                        R.inconc("t4t c16 reference session %s + %s failed: %r" % (op, key, e))
+                        refs[key] = None
+                if refs[key] is None:
+                    continue
+                ok = c16_eval(R, case, refs[key])
+                R.case(("c16x", lay_key(lg), wtxp, op, case["pos"], case["kind"], case["burst"], case["flavour"],
+                        str(case.get("pattern")), key), nontrivial=ok)
+                if case.get("after"):
+                    R.count("t4t_c16_session_cells")
 
 
 def replay_c16(case, R):
